@@ -1070,8 +1070,23 @@ func checkSlotNormalisation(c *core.Ctx, rule9, rule10 string) {
 				n++
 				txt := core.ExprStr(call.Args[idx])
 				okNorm := normalisedBefore(cc.Body, call.Pos(), txt)
-				// a prefix s[:n] of a normalised slice is normalised
-				if sl, isSl := ast.Unparen(call.Args[idx]).(*ast.SliceExpr); isSl && !okNorm && sl.Low == nil {
+				// a prefix s[:n] of a normalised slice is normalised, also when it was first bound to a local
+				argE := ast.Unparen(call.Args[idx])
+				if id, isId := argE.(*ast.Ident); isId && !okNorm {
+					if o := info.Uses[id]; o != nil {
+						ast.Inspect(cc, func(y ast.Node) bool {
+							if as, ok := y.(*ast.AssignStmt); ok && len(as.Lhs) == len(as.Rhs) && as.Pos() < call.Pos() {
+								for i, l := range as.Lhs {
+									if lid, ok := l.(*ast.Ident); ok && (info.Defs[lid] == o || info.Uses[lid] == o) {
+										argE = ast.Unparen(as.Rhs[i])
+									}
+								}
+							}
+							return true
+						})
+					}
+				}
+				if sl, isSl := argE.(*ast.SliceExpr); isSl && !okNorm && sl.Low == nil {
 					okNorm = normalisedBefore(cc.Body, call.Pos(), core.ExprStr(sl.X))
 				}
 				c.Check(rule9 == "" || okNorm, rule9x(rule9), fmt.Sprintf("%s in arm %s (`%s`) is zero-extended first", what, label, core.ExprStr(call.Fun)), call.Pos(),
